@@ -3124,7 +3124,10 @@ func (rl *clientConnReadLoop) processWindowUpdate(f *WindowUpdateFrame) error {
 	if !fl.add(int32(f.Increment)) {
 		// For stream, the sender sends RST_STREAM with an error code of FLOW_CONTROL_ERROR
 		if cs != nil {
-			rl.endStreamError(cs, StreamError{
+			// cc.mu is held here: endStreamError would take it again through
+			// abortStream and the read loop would deadlock on itself.
+			cs.readAborted = true
+			cs.abortStreamLocked(StreamError{
 				StreamID: f.StreamID,
 				Code:     ErrCodeFlowControl,
 			})
